@@ -474,7 +474,7 @@ func genCtorSmall(g *G) {
 	g.emit("!ctorMapping", "gomap", assocArg(many), "ok")
 	g.in("mapping-defect")
 	for _, route := range []string{"gomap", "values", "add"} {
-		for _, v := range []string{"key-over-255", "value-over-255", "total-over-65535"} {
+		for _, v := range []string{"key-over-255", "value-over-255", "total-over-65535", "total-just-over-65535", "total-exactly-65535"} {
 			g.emit("!ctorMapping", route, "-", v)
 		}
 	}
